@@ -15,6 +15,8 @@ structure St where
   hasDoc : Bool := false
   root : List (S × S) := []
   insts : List Inst := []          -- reversed; entries reversed
+  loose : List Entry := []
+  othersOk : Bool := true
   emptyValue : Bool := false
   sax : List Sax := []             -- reversed
   implChanges : Option (List (S × List (S × S))) := none
@@ -48,7 +50,9 @@ def stepLine (st : St) (toks : List String) : St :=
   match toks with
   | ["var", n, v] => { st with vars := st.vars ++ [(hs n, hs v)] }
   | ["doc", attrs] => { st with hasDoc := true, root := parseAttrs attrs }
-  | ["inst", id] => { st with insts := ⟨hs id, []⟩ :: st.insts }
+  | ["inst", id, p] => { st with insts := ⟨hs id, [], optS p⟩ :: st.insts }
+  | ["lentry", p, n, c, v] => { st with loose := st.loose ++ [⟨optS p, hs n, optS c, hs v⟩] }
+  | ["others", r] => { st with othersOk := r == "unchanged" }
   | ["entry", p, n, c, v] => { st with insts := addEntry st.insts ⟨optS p, hs n, optS c, hs v⟩ }
   | ["value", k, _] => { st with emptyValue := k == "empty" }
   | ["sax", "S", n, attrs] => { st with sax := .start (hs n) (parseAttrs attrs) :: st.sax }
@@ -66,12 +70,12 @@ def fmtCbs (c : List (List S)) : String := "|".intercalate (c.map fun l => ",".i
 
 def finish (st : St) : Bool × Bool × List String :=
   let evs := st.sax.reverse
-  let doc : LcDoc := ⟨st.root, st.insts.reverse.map fun i => { i with entries := i.entries.reverse }, []⟩
+  let doc : LcDoc := ⟨st.root, st.insts.reverse.map fun i => { i with entries := i.entries.reverse }, st.loose⟩
   let lastChange : S := "LastChange".toList
   -- the implementation's observation: further callbacks = all but the final one for LastChange itself
   let endsOk := st.raised || st.cbs.getLast? == some [lastChange]
   let further := if st.raised then st.cbs else st.cbs.dropLast
-  let obs : Obs := ⟨st.raised, st.after, further⟩
+  let obs : Obs := ⟨st.raised, st.after, further, st.othersOk⟩
   let notes : List String := st.bad.map (s!"bad-line {·}")
   -- correspondence 1: the handler fold on the delivered events gives the implementation's mapping
   let mrun := run evs
